@@ -468,6 +468,9 @@ pub fn run_sscenario(sc: &SScenario, replay: Option<Vec<Decision>>, trace: bool)
         RunEnd::Violation(v) => violation = Some(v),
         RunEnd::StepCap => step_cap_hit = true,
         RunEnd::Diverged(e) => diverged = Some(e),
+        RunEnd::Deadlock(d) => {
+            violation = Some(engine::violation("C14", "deadlock", format!("no thread can move: {d} wait for a lock that is never released")))
+        }
     }
     // epilogue: cancel whatever is pending, drop every wrapper, run every worker to completion
     with_s(|w| w.draining = true);
